@@ -405,8 +405,14 @@ def polar_to_parameter(ctx):
         start = body.index(at[0])
         bad = []
         n = 0
-        for k in range(-16, 16):
-            ang = Fraction(2 * k + 1, 32)
+        # the two boundaries are decided by what tan() returns there in IEEE double: tan(float(tau/4)) and tan(float(3 tau/4)) are
+        # both large and POSITIVE (the float is just below the pole), so atan2 lands just below +1/4 turn in both cases: at 1/4
+        # turn that is the parameter (no correction), at 3/4 turn the parameter is half a turn further (correction).  With a
+        # negative angle tan changes sign and the same membership is right again.  Hence (1/4, 3/4], not [1/4, 3/4) or (1/4, 3/4).
+        import math
+        ctx.need(math.tan(math.tau / 4) > 1e15 and math.tan(3 * math.tau / 4) > 1e15, "R05.5", "sign of tan at the quarter-turn boundaries differs on this platform")
+        angles = [Fraction(2 * k + 1, 32) for k in range(-16, 16)] + [Fraction(1, 4), Fraction(-1, 4), Fraction(3, 4), Fraction(-3, 4)]
+        for ang in angles:
             pe = PE(ctx.m, "R05.5", "%s[angle = %s turn]" % (qual, ang))
             pe.bind("tau", const(1))
             pe.bind(angle_var, const(ang))
@@ -418,11 +424,11 @@ def polar_to_parameter(ctx):
                 raise AnalysisError("R05.5", "%s: half-turn correction not decided: %s" % (qual, e))
             got = pe.env.get(tvar)
             frac = abs(ang) % 1
-            want_left = Fraction(1, 4) < frac < Fraction(3, 4)
+            want_left = Fraction(1, 4) < frac <= Fraction(3, 4)
             added = isinstance(got, RF) and got == base + const(Fraction(1, 2))
             kept = isinstance(got, RF) and got == base
             n += 1
             if not (added if want_left else kept):
                 bad.append("angle %s turn: %s" % (ang, "half turn added" if added else "not corrected" if kept else got))
         ctx.ob("R05.5", "%s[half turn added exactly in the left half plane]" % qual, not bad, "; ".join(bad[:4]) or "%d representative angles" % n, fn.lineno,
-               "atan2(rx tan a, ry) only yields the right half of the ellipse; for |a| mod 1 turn in (1/4, 3/4) the parameter is half a turn further - also for angles beyond +-3/4 turn, which occur because the angle is a difference of two atan2 values")
+               "atan2(rx tan a, ry) only yields the right half of the ellipse; for |a| mod 1 turn in (1/4, 3/4] the parameter is half a turn further - also for angles beyond +-3/4 turn, which occur because the angle is a difference of two atan2 values")
